@@ -57,17 +57,17 @@ func Prop() *core.Prop {
 	return &core.Prop{
 		ID:    "C09",
 		Level: core.Exploration,
-		Race:  os.Getenv("C09_RACE") == "1",
+		Race:  os.Getenv("C09_RACE") != "0", // race detector on (it found the history iterator's shared stream); C09_RACE=0 turns it off
 		Rule:  "case i is workload 1 (20 of every 23) or workload 2 (3 of every 23). Workload 1: grammar rule i mod 25 (one per handler namespace plus plain and stream-level material) gives canonical stanzas and application actions (tracked history query, receipt-requesting send, MUC join/leave, outgoing IBB stream); from the second round on 1-3 structural mutations (22 kinds) or a byte-level mutation (6 kinds) hit the rule's stanzas, from the third round canonical stanzas of other rules are put before/after; a sentinel ping follows every peer write; delivery is step-by-step or in one burst; the input ends with a closing tag or a bare EOF. Workload 2: helper i mod 46 against a peer that answers its k-th request with a canonical / error / mutated / byte-mutated / unroutable reply. Signature = (rule, mutation kinds, Serve outcome) or (helper, reply classes, helper outcome).",
 		Assumptions: []string{
 			"the application side is cooperative: it accepts and drains IBB streams, consumes iterators, never blocks in a callback, cancels its contexts once Serve has returned",
-			"the tracked-history consumer reads only the two buffered tokens of Iter.Current() (the rest is the live session reader that Serve owns again after the handler returned)",
+			"the tracked-history consumer reads every token of Iter.Current() in a third of the cases (on another goroutine than Serve, as the API intends)",
 			"replies to application-side IBB data writes are well-formed and routable (Conn.Write has no context to cancel)",
 			"a stall verdict needs the Serve goroutine (or a cancelled helper call) parked at the same library frame in a channel/select/mutex wait in three samples while no goroutine is in a transport read",
 		},
 		Cases: func(tier string) int {
 			if tier == "thorough" {
-				return 1150000
+				return 460000
 			}
 			return 23000
 		},
